@@ -54,14 +54,62 @@ def run(s):
     K.item_grid(s, 3, pretties=(False,), full=False, inters=(False,))
     K.many_unresolvable(s)
     K.story_grid(s, 4, layouts=('before',), pretties=(False,), kmax=2, full=False, names=K.HOSTILE_NAMES_C)
+    K.story_grid(s, 4, layouts=('before',), pretties=(False,), kmax=2, full=False, names=K.HOSTILE_NAMES_D)
     K.item_grid(s, 4, pretties=(False,), kmax=2, full=False, inters=(False,), item_names=K.HOSTILE_NAMES_C)
+    K.item_grid(s, 4, pretties=(False,), kmax=2, full=False, inters=(False,), item_names=K.HOSTILE_NAMES_D)
     collection_reports(s, 60 if q else 3000)
     repeated_id_deletes(s)
     under_error_filter(s)
+    under_module_filter(s)
     aligned_block_deletes(s)
     K.idless_cases(s)
     K.fuzz(s, 120 if q else 12000, K.kind_weights(1, 1, 0.3), steps=(5, 25),
            shape_weights=(0.6, 0.25, 0.12, 0.03), selfref=0.1, direct=0.3)
+
+
+def under_module_filter(s):
+    """A host that keeps Python's default warning action (once per location) and turns mosromgr's warnings on by
+    MODULE - filterwarnings('always', module='mosromgr...'), -W always:::mosromgr.mostypes, pytest's ini filters:
+    every report is delivered there as well (the library's warnings are issued in the library's name)."""
+    import warnings as W
+    from .. import events as EV
+    idx = 0
+    S = ['A', 'B', 'C']
+    ro_txt = gen.grid_ro(S, 'before', pretty=False)
+    iro_txt = B.ro_doc('RO', 1, [gen.simple_story('A', 2, item_prefix='i'), gen.simple_story('B', 3, item_prefix='i')])
+    cats = ('StoryNotFoundWarning', 'ItemNotFoundWarning', 'DuplicateStoryWarning')
+    for txt, cases in ((ro_txt, list(K.subset_cases(S, 'story', nmax=3))),
+                       (iro_txt, list(K.subset_cases(['i0', 'i1', 'i2'], 'item', story_ref='B', nmax=3)))):
+        for kind, kw, nn, mask in cases:
+            idx += 1
+            if not s.mine(idx) or sum(1 for m_ in mask if m_) < 2:
+                continue
+            msg_txt = B.msg_doc(kind, 7, **kw)
+            _ro, err0, wl0 = s.add(s.load(txt), s.load(msg_txt))
+            EV.drain()
+            want = sorted(type(w.message).__name__ for w in wl0 if type(w.message).__name__ in cats)
+            if err0 is not None or len(want) < 2:
+                continue
+            ro, msg = s.load(txt), s.load(msg_txt)
+            with W.catch_warnings(record=True) as wl1:
+                W.resetwarnings()
+                W.simplefilter('default')
+                W.filterwarnings('always', module=r'mosromgr(\..*)?$')
+                try:
+                    ro + msg
+                    err1 = None
+                except Exception as e:
+                    err1 = e
+            EV.drain()
+            got = sorted(type(w.message).__name__ for w in wl1 if type(w.message).__name__ in cats)
+            s.evaluations += 1
+            s.note_sig(('module-filter', kind, mask, got == want))
+            s.hist['cases_under_a_module_filter'] += 1
+            if err1 is not None or got != want:
+                s.custom_violation('report-not-delivered-under-a-module-filter',
+                                   {'kind': kind, 'mask': list(mask), 'under_always': want, 'under_module_filter': got,
+                                    'exc': type(err1).__name__ if err1 else None},
+                                   {'type': 'module-filter', 'ro_txt': txt, 'msg_txt': msg_txt}, msg_kind=kind, status='module-filter')
 
 
 def aligned_block_deletes(s):
@@ -241,6 +289,25 @@ def replay(s, data):
     w = data['witness']
     if w.get('type') == 'collection-reports':
         return judge_collection_reports(s, w['docs'])
+    if w.get('type') == 'module-filter':
+        import warnings as W
+        from .. import events as EV
+        _ro, err0, wl0 = s.add(s.load(w['ro_txt']), s.load(w['msg_txt']))
+        cats = ('StoryNotFoundWarning', 'ItemNotFoundWarning', 'DuplicateStoryWarning')
+        want = sorted(type(x.message).__name__ for x in wl0 if type(x.message).__name__ in cats)
+        ro, msg = s.load(w['ro_txt']), s.load(w['msg_txt'])
+        with W.catch_warnings(record=True) as wl1:
+            W.resetwarnings()
+            W.simplefilter('default')
+            W.filterwarnings('always', module=r'mosromgr(\..*)?$')
+            ro + msg
+        EV.drain()
+        got = sorted(type(x.message).__name__ for x in wl1 if type(x.message).__name__ in cats)
+        s.evaluations += 1
+        if got != want:
+            s.custom_violation('report-not-delivered-under-a-module-filter', {'under_always': want, 'under_module_filter': got}, w,
+                               status='module-filter')
+        return
     if w.get('type') == 'error-filter':
         from .. import events as EV
         _ro, err1, _wl = s.add(s.load(w['ro_txt']), s.load(w['msg_txt']), error_on=Warning)
